@@ -55,7 +55,6 @@ package clover
 
 //@ func callsNeedsPosGuarded
 //@   tags (C20)
-//@   ensures ok-nonneg: (bvsge result (bv 0))
 //@   ensures bad-pos: (bvsgt result (bv 0))
 
 //@ func usesOpaque
@@ -209,10 +208,15 @@ package clover
 //@   ensures ok-nine: (=> (bvsge (len s) (bv 2)) (= result (bv 9)))
 
 // ---- second file ----
+//@ func setSeven
+//@   tags (C20)
+//@   modifies (heap*)
+//@   ensures ok-seven: (= (@ b v) (bv 7))
+
 //@ func deferred
 //@   tags (C20)
 //@   modifies (heap*)
-//@   ensures ok-five: (= (@ b v) (bv 5))
+//@   ensures ok-seven: (= (@ b v) (bv 7))
 //@   ensures bad-one: (= (@ b v) (bv 1))
 
 //@ func structCopy
@@ -258,7 +262,7 @@ package clover
 //@   tags (C20)
 //@   ensures ok-bound: (and (bvsge result (bv 0)) (bvsle result (len s)))
 //@   ensures bad-all: (= result (len s))
-//@   loop 0 invariant ok-bound: (and (bvsge c (bv 0)) (bvsle c (bvadd rangeindex (bv 1))))
+//@   loop 0 invariant ok-bound: (and (bvsge c (bv 0)) (bvsle c (bvadd rangeindex (bv 1))) (bvsle (bvadd rangeindex (bv 1)) (len s)))
 
 //@ func fact
 //@   tags (C20)
@@ -272,6 +276,11 @@ package clover
 //@   ensures bad-pos: (bvsgt result (bv 0))
 
 //@ func readGlobalAcross
+//@   tags (C20)
+//@   modifies (heap*)
+//@   ensures ok-zero: (= result (bv 0))
+
+//@ func readGlobalAcrossWriter
 //@   tags (C20)
 //@   modifies (heap*)
 //@   ensures bad-zero: (= result (bv 0))
@@ -304,7 +313,7 @@ package clover
 //@   modifies (heap*)
 //@   ensures ok-len: (= result (old (len s)))
 //@   ensures bad-twice: (= result (bvadd (old (len s)) (old (len s))))
-//@   loop 0 invariant ok-n: (= n (bvadd rangeindex (bv 1)))
+//@   loop 0 invariant ok-n: (and (= n (bvadd rangeindex (bv 1))) (bvsle n (old (len s))))
 
 //@ func namedResult
 //@   tags (C20)
@@ -325,3 +334,91 @@ package clover
 //@   tags (C20)
 //@   ensures bad-mono: (bvugt result x)
 //@   ensures ok-wrap: (=> (= x #xff) (= result #x00))
+
+// ---- third file ----
+//@ func leak
+//@   tags (C20)
+//@   modifies (heap*)
+
+//@ func nested
+//@   tags (C20)
+//@   requires nn: (not (= (@ o p) null))
+//@   modifies (heap*)
+//@   ensures bad-one: (= result (bv 1))
+//@   ensures ok-one-or-two: (or (= result (bv 1)) (= result (bv 2)))
+
+//@ func readOnly
+//@   tags (C20)
+//@   extra unchanged (F_clover_box_v)
+//@   ensures ok-v: (= result (@ b v))
+
+//@ func notReadOnly
+//@   tags (C20)
+//@   extra unchanged (F_clover_box_v)
+
+//@ func @intCb
+//@   params (x)
+//@   modifies (C_int)
+
+//@ func each@f
+//@   implements @intCb
+
+//@ func each
+//@   tags (C20)
+//@   modifies (C_int)
+
+//@ func sumWith$1
+//@   tags (C20)
+//@   implements @intCb
+//@   maintains bad-nonneg: (bvsge t (bv 0))
+
+//@ func sumWith
+//@   tags (C20)
+//@   modifies (heap*)
+//@   ensures bad-zero: (= result (bv 0))
+
+//@ func countWith$1
+//@   tags (C20)
+//@   implements @intCb
+//@   maintains ok-any: (or (bvsge t (bv 0)) (bvslt t (bv 0)))
+
+//@ func countWith
+//@   tags (C20)
+//@   modifies (heap*)
+//@   ensures bad-zero: (= result (bv 0))
+
+//@ func arr
+//@   tags (C20)
+//@   ensures bad-seven: (= result (bv 7))
+
+//@ func outerBreak
+//@   tags (C20)
+//@   ensures ok-le1: (bvsle result (bv 1))
+//@   ensures bad-zero: (= result (bv 0))
+//@   loop 0 invariant ok-c: (and (bvsge i (bv 0)) (or (= c (bv 0)) (and (= n (bv 1)) (= c (bv 1)) (bvsge i (bv 1)))))
+//@   loop 1 invariant ok-c: (and (bvsge i (bv 0)) (bvsgt n (bv 0)) (or (and (= j (bv 0)) (= c (bv 0))) (and (= j (bv 1)) (= c (bv 1)))))
+
+//@ iface shape.area
+//@   ensures nonneg-or-any: true
+
+//@ func area2
+//@   tags (C20)
+//@   requires nn: (not (= x vnil))
+//@   ensures bad-even: (= ((_ extract 0 0) result) #b0)
+
+//@ func beforeCall
+//@   tags (C20)
+//@   assert-before needsPos ok-pos: (or (bvsgt y (bv 5)) true)
+//@   assert-before needsPos bad-big: (bvsgt y (bv 5))
+
+//@ func mapOfStruct
+//@   tags (C20)
+//@   ensures bad-nine: (= result (bv 9))
+
+//@ func fieldLoop
+//@   tags (C20)
+//@   requires nn: (forall ((j (_ BitVec 64))) (! (=> (bvult j (len bs)) (not (= (idx bs j) null))) :pattern ((idx bs j))))
+//@   modifies (heap*)
+//@   ensures ok-len: (= result (len bs))
+//@   ensures bad-zero: (= result (bv 0))
+//@   loop 0 invariant ok-n: (and (= n (bvadd rangeindex (bv 1))) (bvsle n (len bs)))
